@@ -111,6 +111,6 @@ public:
   }
 };
 LRHarness h;
-struct Reg { Reg() { register_harness(&h); } } reg;
+struct Reg { Reg() { register_harness(&h); xsim::fn_probe("left_right: wait_for_readers executed", "16wait_for_readers"); xsim::fn_pair_probe("left_right: toggle_version_and_wait overlaps a reader arriving", "23toggle_version_and_wait", "6arriveEv"); xsim::fn_pair_probe("left_right: wait_for_readers overlaps a reader departing", "16wait_for_readers", "6departEv"); } } reg;
 } // namespace hx_lr
 XSIM_MAIN()
